@@ -228,6 +228,38 @@ Definition chain_ok (c : chain_in) (o : chain_obs) : bool :=
             && (if uses_confs (ci_kind c) then positive_or_absent (ci_confs c) else true))
   end.
 
+(* USING a loaded configuration.  The application hands the loaded values (the *big.Int pointers of the
+   config object) to the start-block computation and to the listeners.  These consumers are functions of
+   the values: they return results and leave the configuration as loaded, however often they run.
+   [use_chain cfg n] = the configuration after n start-block computations and their results. *)
+Definition use_chain (cfg : chain_cfg) (n : nat) : chain_cfg * list calc :=
+  (cfg, repeat (calc_start (cc_start cfg) (cc_interval cfg)) n).
+
+Definition chain_cfg_eqb (a b : chain_cfg) : bool :=
+  (cc_interval a =? cc_interval b) && (cc_confs a =? cc_confs b) && (cc_start a =? cc_start b).
+
+(* what the runner saw after using an accepted configuration: the three numeric settings read again,
+   whether EVERY OTHER field of the config object (deep comparison by value with a snapshot taken right
+   after loading) is unchanged, and the results of the start-block computations run after the first *)
+Record chain_after := mkAfter { ca_cfg : chain_cfg; ca_rest_same : bool; ca_calcs : list calc }.
+
+(* Specification of the use of an accepted configuration: the settings still equal what was loaded (so,
+   with chain_ok, what was written) and no later start-block computation panics. *)
+Definition use_ok (o : chain_obs) (a : option chain_after) : bool :=
+  match o, a with
+  | Some (cfg, _), Some af =>
+      chain_cfg_eqb (ca_cfg af) cfg && ca_rest_same af
+      && forallb (fun r => match r with Val _ => true | Panic => false end) (ca_calcs af)
+  | Some _, None => false
+  | None, _ => true
+  end.
+
+Definition model_after (o : chain_obs) (n : nat) : option chain_after :=
+  match o with
+  | Some (cfg, _) => let (cfg', rs) := use_chain cfg n in Some (mkAfter cfg' true rs)
+  | None => None
+  end.
+
 Definition model_chain (c : chain_in) : chain_obs :=
   match validate c with
   | Some cfg => Some (cfg, calc_start (cc_start cfg) (cc_interval cfg))
@@ -259,11 +291,15 @@ Definition net_ok (v : Z) (impl : option Z) : bool :=
 (* ---------------------------------------------------------------------------------------------- *)
 (* Local-over-shared merge *)
 
-Inductive jv := JNum (z : Z) | JStr (s : string) | JBool (b : bool).
+(* a JSON scalar.  Numbers: [JNum z] = the integer z; [JFrac n d] = the non-integral number n/d in
+   lowest terms (d >= 2; the runner writes binary fractions such as 3/2, which float64 holds exactly),
+   so that two numbers are equal iff their terms are equal *)
+Inductive jv := JNum (z : Z) | JStr (s : string) | JBool (b : bool) | JFrac (n : Z) (d : positive).
 
 Definition jv_eqb (a b : jv) : bool :=
   match a, b with
   | JNum x, JNum y => x =? y
+  | JFrac n d, JFrac n' d' => (n =? n') && Pos.eqb d d'
   | JStr x, JStr y => String.eqb x y
   | JBool x, JBool y => Bool.eqb x y
   | _, _ => false
@@ -275,6 +311,7 @@ Definition jempty (v : jv) : bool :=
   | JNum z => z =? 0
   | JStr s => String.eqb s ""
   | JBool b => negb b
+  | JFrac _ _ => false            (* a non-integral number is not zero *)
   end.
 
 Definition obj := list (string * jv).
@@ -303,14 +340,33 @@ Definition opt_jv_eqb (a b : option jv) : bool :=
   | _, _ => false
   end.
 
-(* compareDomainID on numbers (int and float64 compare numerically) *)
-Definition id_of (o : obj) : option Z := match lookup "id" o with Some (JNum i) => Some i | _ => None end.
+(* Chain ids.  A chain id is whatever NUMBER was written: an integer of any size and sign or a
+   non-integral number; an id written as a string (or bool) is no id.  config.compareDomainID compares
+   the decoded values (Go int or float64, in any combination) AS WRITTEN - numerically and exactly: no
+   narrowing to the uint8 of the chain constructors, no rounding, no truncation of fractions.  So 257
+   is not 1, -255 is not 1, 65537 is not 1, 3/2 is neither 1 nor 2, and the int 1 is the float 1. *)
+Inductive idnum := IdInt (z : Z) | IdFrac (n : Z) (d : positive).
 
-Fixpoint find_chain (i : Z) (shared : list obj) : option obj :=
+Definition compare_domain_id (a b : idnum) : bool :=
+  match a, b with
+  | IdInt x, IdInt y => x =? y
+  | IdFrac n d, IdFrac n' d' => (n =? n') && Pos.eqb d d'
+  | _, _ => false
+  end.
+
+Definition id_of (o : obj) : option idnum :=
+  match lookup "id" o with
+  | Some (JNum i) => Some (IdInt i)
+  | Some (JFrac n d) => Some (IdFrac n d)
+  | _ => None
+  end.
+
+(* findChainConfig: the first shared entry whose id compares equal *)
+Fixpoint find_chain (i : idnum) (shared : list obj) : option obj :=
   match shared with
   | [] => None
   | s :: r => match id_of s with
-              | Some j => if i =? j then Some s else find_chain i r
+              | Some j => if compare_domain_id i j then Some s else find_chain i r
               | None => find_chain i r
               end
   end.
